@@ -2,7 +2,7 @@
    Models: model/C10Distribute.v (distribute_excess_width), model/C10Layout.v (fixed_table_layout,
    auto_table_layout), model/C10Grid.v (column positions / cell extents of table_layout), model/C10Borders.v
    (collapse_table_borders); tied to /repo by the correspondence streams of harness/p_c10.py. *)
-From Coq Require Import QArith List Bool Sorting.Sorted.
+From Coq Require Import QArith Qminmax List Bool Sorting.Sorted.
 Require Import WV.model.C10Distribute WV.model.C10Layout WV.model.C10Grid WV.model.C10Borders WV.model.C10Preferred.
 Require Import WV.proofs.C10_distribute WV.proofs.C10_fixed WV.proofs.C10_auto WV.proofs.C10_grid WV.proofs.C10_borders WV.proofs.C10_preferred.
 Import ListNotations.
@@ -92,7 +92,9 @@ Proof. exact (fixed_sum_zero_columns W s W' ws). Qed.
 Print Assumptions C10_fixed_sum_zero_columns.
 
 (* CSS 2.1 17.5.2.1: declared column widths, then first-row cell widths; [bonus] is the equal share of extra
-   width every column receives when the table is wider than its columns (then the table keeps its width) *)
+   width every column receives when the table is wider than its columns (then the table keeps its width).
+   A first-row cell narrower than the declared widths of the columns it spans cannot be honoured: its columns then
+   take exactly what is declared (the Qmax) *)
 Theorem C10_fixed_declared_and_first_row_widths_honoured
         (W s : Q) (cols : list decl) (cells : list fcell) (W' : Q) (ws : list Q) :
   fixed_layout W s cols cells = Some (W', ws) ->
@@ -104,9 +106,19 @@ Theorem C10_fixed_declared_and_first_row_widths_honoured
        (exists j, (spans pre <= j < spans pre + fc_span c)%nat /\
                   nth j (map (fun d => resolve d W) cols) None = None) ->
        qsum (firstn (fc_span c) (skipn (spans pre) ws)) + s * (qnat (fc_span c) - 1)
-       == w + fc_bp c + qnat (fc_span c) * bonus).
+       == Qmax (w + fc_bp c)
+               (osum (firstn (fc_span c) (skipn (spans pre) (fixed_init W cols cells))) + s * (qnat (fc_span c) - 1))
+          + qnat (fc_span c) * bonus).
 Proof. exact (fixed_widths_honoured W s cols cells W' ws). Qed.
 Print Assumptions C10_fixed_declared_and_first_row_widths_honoured.
+
+(* no column gets a negative width when no declared width is negative: the remainder a first-row colspan cell
+   leaves to its columns without width is floored at 0 (the table is widened instead) *)
+Theorem C10_fixed_columns_non_negative (W s : Q) (cols : list decl) (cells : list fcell) (W' : Q) (ws : list Q) :
+  0 <= s -> Forall (fun d => match resolve d W with Some v => 0 <= v | None => True end) cols ->
+  fixed_layout W s cols cells = Some (W', ws) -> Forall (fun w => 0 <= w) ws.
+Proof. exact (fixed_columns_non_negative W s cols cells W' ws). Qed.
+Print Assumptions C10_fixed_columns_non_negative.
 
 (* ------------------------------------------------------------------ auto_table_layout *)
 (* the used width of the table: at least min-content; an auto width never exceeds the available width when the
